@@ -43,8 +43,8 @@ var Guards = []Guard{
 	{"gd.loopValidated", "for rt.Validate1($x) {\n\trt.Sink1($x)\n\tbreak\n}"},
 	{"gd.otherData", "w := \"other\"\nif rt.Validate1(w) {\n\trt.Sink1($x)\n}"},
 	{"gd.copy", "w := $x + \"\"\nif rt.Validate1(w) {\n\trt.Sink1($x)\n}"},
-	{"gd.assignInside", "v2 := \"\"\nif rt.Validate1($x) {\n\tv2 = $x\n}\nrt.Sink1(v2)"},
-	{"gd.assignOutside", "v2 := $x\nif rt.Validate1($x) {\n\tv2 = \"b\"\n}\nrt.Sink1(v2)"},
+	{"gd.assignInside", "gv := \"\"\nif rt.Validate1($x) {\n\tgv = $x\n}\nrt.Sink1(gv)"},
+	{"gd.assignOutside", "gv := $x\nif rt.Validate1($x) {\n\tgv = \"b\"\n}\nrt.Sink1(gv)"},
 	{"gd.validThenSinkAfter", "if rt.Validate1($x) {\n\trt.Sink3(\"c\")\n}\nrt.Sink1($x)"},
 	{"gd.switchValid", "switch {\ncase rt.Validate1($x):\n\trt.Sink1($x)\ndefault:\n\trt.Sink3($x)\n}"},
 	{"gd.helperValid", "if $PvalidH($x) {\n\trt.Sink1($x)\n}\nrt.Sink3($x)"},
